@@ -51,7 +51,38 @@ pub fn run_c02(ctx: &Ctx) -> i32 {
             cfg.max_w = 3;
             cfg.max_h = 40;
         }
-        let (sp, palprog) = gen::gen_sprite(&mut rng, &cfg);
+        let (mut sp, palprog) = gen::gen_sprite(&mut rng, &cfg);
+        if i % 25 == 13 && sp.fmt != Fmt::Indexed {
+            // an all-opaque cel at least as large as the canvas on a Normal layer at opacity 255 - placed exactly on the
+            // canvas or slightly off it, at cel opacity 255 or less - and, in the next frame, a link to it whose own chunk
+            // fields say "at (0,0), opacity 255". What lies below must show wherever (and as much as) blending says.
+            let (w, h) = (sp.width.min(12), sp.height.min(12));
+            sp.width = w;
+            sp.height = h;
+            if sp.durations.len() < 2 {
+                sp.durations.push(90);
+            }
+            let mut top = LayerM::image("cover");
+            top.blend = 0;
+            top.opacity = 255;
+            top.level = 0;
+            sp.layers.push(top);
+            let l = (sp.layers.len() - 1) as u16;
+            let (cw, ch) = (w + rng.range(0, 2) as u16, h + rng.range(0, 2) as u16);
+            let bpp = sp.fmt.bpp();
+            let mut px = rng.bytes(cw as usize * ch as usize * bpp);
+            for p in px.chunks_mut(bpp) {
+                p[bpp - 1] = 255;
+            }
+            let (x, y) = *rng.pick(&[(0i16, 0i16), (0, 0), (1, 0), (0, -1), (-1, -1), (w as i16 / 2, 0)]);
+            let op = *rng.pick(&[255u8, 255, 128, 1, 0]);
+            sp.cels.insert((0, l), CelM { x, y, opacity: op, content: CelContentM::Image { w: cw, h: ch, pixels: px }, ud: None });
+            sp.cels.insert((1, l), CelM { x: 0, y: 0, opacity: 255, content: CelContentM::Link(0), ud: None });
+            for f in 2..sp.durations.len() as u16 {
+                sp.cels.remove(&(f, l));
+            }
+        }
+        let sp = sp;
         let mut res = CaseResult::ok(gen::features(&sp), 0, "ok");
         let visible = sp.visible();
         let stacked: u64 = (0..sp.durations.len()).map(|f| (0..sp.layers.len()).filter(|l| visible[*l] && sp.cels.contains_key(&(f as u16, *l as u16))).count() as u64).max().unwrap_or(0);
@@ -257,7 +288,7 @@ pub fn run_c06(ctx: &Ctx) -> i32 {
             _ => v.storage = true,
         }
         // the palette in several chunks (a stale sub-range first, then the range in parts)
-        if i % 4 == 1 {
+        if i % 5 == 2 {
             v.split = true;
         }
         // cel chunks of a frame in any order (the format does not prescribe one)
